@@ -12,8 +12,10 @@ RULE = ("P1: for the rational quadratic kernel with alpha in {1,2}, variance in 
         " box: monotonicity / positivity / symmetry / zero-distance on a distance grid at base points 0, -3.5, 999, "
         "-1000, matrix form = scalar form on nearby points of magnitude 1e3, parameter validation. Mixture parameter "
         "1/2 on Pythagorean distances and 3/2 on d/l in {0, 3, 12} (exact square roots), non-integer mixture parameters"
-        " 3/2, 5/2, 7/10, 19/8 in the relational grid. Every Gram case is followed by a call on the reversed first "
-        "point set (reversed rows). Case class = (kernel, form, alpha/point-count or magnitude / length-scale class).")
+        " 3/2, 5/2, 7/10, 19/8 in the relational grid. Leading sub-rectangles of every table (a single point against a "
+        "set on either side, point against point, |X| x 2, (k+1) x k). Every Gram case is followed by a call on the "
+        "reversed first point set (reversed rows). Case class = (kernel, form, alpha/point-count or magnitude / length-"
+        "scale class).")
 ASSUMPTIONS = ["exp is the scalar oracle for RBF (the spec fixes its exponent); PSD of RBF Gram matrices is implied by conformance to the formula, not certified separately",
                "exact PSD minors limited by 32-bit integers to the stated sub-domain"]
 EXHAUSTIVE = True
